@@ -50,6 +50,12 @@ CHECKS = {
          "sentinels beyond the count, header words and zero tail of the segment via an independent mapping). Concurrent: threads and forked processes exchange fixed-size checksummed records; "
          "any torn record, loss, duplicate or per-producer reorder is a violation; TSan watches the threaded runs.",
     note="Known finding (KNOWN_FINDINGS.txt): handle opened with a smaller size argument. Wild writes far outside the segment are not observable."),
+ "C18": dict(cat="fault_enumeration", ref="§3 C18",
+    technique="exhaustive k-th allocation failpoint (once / sticky) through the PMemVTable over per-module scenarios in forked children; tracking allocator + ASan/UBSan + scenario self-checks",
+    text="For each of 23 module scenarios the number N of allocations is counted in a clean child and then EVERY k in 1..N+1 is failed (once; thorough also sticky) in its own forked child under ASan+UBSan; "
+         "oracles: normal exit, no sanitizer report, no tracked block alive after the caller freed everything and the library shut down, pre-existing containers/objects unchanged, no double/foreign free. "
+         "General rwlock / sim atomics constructors are covered by the asan-simgen variant. Fault enumeration is the right level: the quantifier is a finite fault index per scenario.",
+    note="Only allocations that go through the PMemVTable are failed; scenarios are representative sequences, not all entry points in all states."),
 }
 
 NOT_YET = {}
